@@ -233,6 +233,10 @@ func fgName(s ui.Style) string {
 
 var evaler *eval.Evaler
 
+// poisoned: an earlier case of this process could not be brought to
+// quiescence; goroutine-count based settling is unreliable from then on.
+var poisoned bool
+
 // scenario state
 type scen struct {
 	c       *mon.Case
@@ -358,6 +362,7 @@ func (s *scen) settle(extra int) bool {
 		}
 		if time.Now().After(deadline) {
 			s.c.Inconclusive("settle-timeout")
+			poisoned = true // goroutine counts of later cases in this process would be off
 			return false
 		}
 		s.drainQuiet()
@@ -499,6 +504,10 @@ func (s *scen) finalCheck() {
 // phase 1: random sequences
 
 func runSequence(c *mon.Case) {
+	if poisoned {
+		c.Inconclusive("process-poisoned-by-earlier-timeout")
+		return
+	}
 	r := c.Rand
 	s := newScen(c, r.Intn(12))
 	defer func() {
@@ -585,6 +594,10 @@ func runSequence(c *mon.Case) {
 var perms3 = [][3]int{{0, 1, 2}, {0, 2, 1}, {1, 0, 2}, {1, 2, 0}, {2, 0, 1}, {2, 1, 0}}
 
 func runOrders(c *mon.Case) {
+	if poisoned {
+		c.Inconclusive("process-poisoned-by-earlier-timeout")
+		return
+	}
 	r := c.Rand
 	perm := perms3[c.I%6]
 	variant := c.I / 6 % 4
